@@ -899,7 +899,10 @@ static tAdrMode DecodeAdr(tStrComp const* pArg, unsigned ModeMask, tAdrVals* pAd
         {
             switch (DecodeReg(&InArg, &pAdrVals->Val, &ArgSize, ChkRegSize_Idx, False)) {
             case eIsReg: /* abs(Rx) */
-                if (DecodeAddrPart(&OutArg, 0, pAdrVals, True, IsIO, NULL)) {
+                /* index register field 0 is the coding of direct addressing */
+                if (!pAdrVals->Val) {
+                    WrStrErrorPos(ErrNum_InvAddrMode, &InArg);
+                } else if (DecodeAddrPart(&OutArg, 0, pAdrVals, True, IsIO, NULL)) {
                     pAdrVals->Mode = eModIndexed;
                 }
                 break;
